@@ -26,6 +26,7 @@ type oconfig struct {
 	Map       map[uint16]uint16 // node -> party
 	Callers   []uint16          // nodes that call KeyGen/Sign
 	Sign      bool
+	Silent    bool // SilentScheme (msg.Box + silent synchroniser) instead of LoudScheme + barrier
 	Script    backend.Script
 	Byz       map[uint16]*byzPlan // Byzantine nodes (must be callers, so that the session starts)
 	Outsiders []outsiderPlan
@@ -80,7 +81,7 @@ func newOWorld(cfg oconfig) *oworld {
 	sc.AllAtOnce = true
 	sc.Hold = true
 	thr := len(cfg.Callers) - 1
-	w.c = cluster.New(cluster.Config{Map: cfg.Map, Threshold: thr, Barrier: true, Script: sc})
+	w.c = cluster.New(cluster.Config{Map: cfg.Map, Threshold: thr, Barrier: !cfg.Silent, Silent: cfg.Silent, Script: sc})
 	w.c.Net.KeepData = true
 	for _, u := range cfg.Callers {
 		if cfg.Byz[u] == nil {
@@ -92,6 +93,11 @@ func newOWorld(cfg oconfig) *oworld {
 		topicName = "sign-topic"
 	}
 	w.topic = cluster.Hash([]byte(topicName))
+	if cfg.Silent {
+		callers := append([]uint16{}, cfg.Callers...)
+		sort.Slice(callers, func(i, j int) bool { return callers[i] < callers[j] })
+		w.c.SetPick(topicName, callers)
+	}
 	// Byzantine nodes
 	for id, plan := range cfg.Byz {
 		id, plan := id, plan
@@ -179,13 +185,11 @@ func newOWorld(cfg oconfig) *oworld {
 // matchPayload tells whether wire data carries a payload emitted by some backend of this session
 // (recognised as a suffix, so no assumption about the framing the orchestrator adds).
 func (w *oworld) matchPayload(data []byte) (backend.Payload, bool) {
-	for _, u := range w.cfg.Callers {
-		for _, b := range w.c.Backends[u] {
-			for _, s := range b.Sent {
-				if bytes.HasSuffix(data, s.Payload) {
-					p, err := backend.Decode(s.Payload)
-					return p, err == nil
-				}
+	for _, b := range w.c.AllBackends() {
+		for _, s := range b.SentCopy() {
+			if bytes.HasSuffix(data, s.Payload) {
+				p, err := backend.Decode(s.Payload)
+				return p, err == nil
 			}
 		}
 	}
